@@ -101,6 +101,33 @@ Section Matcher.
     - intros [c [sp [Hc [Hs Hm]]]]. exists c. split; auto. apply existsb_exists. eauto.
   Qed.
 
+  (** the config-wide oracles answer for EVERY problem of the configuration, whatever its position *)
+  Lemma is_some_spec : forall sel cfg c,
+    is_some rmatch sel cfg c = true <-> exists p, In p cfg /\ exists_cid rmatch (sel p) c = true.
+  Proof. intros. unfold is_some. apply existsb_exists. Qed.
+
+  Lemma is_some_app : forall sel cfg1 cfg2 c,
+    is_some rmatch sel (cfg1 ++ cfg2) c = is_some rmatch sel cfg1 c || is_some rmatch sel cfg2 c.
+  Proof. intros. unfold is_some. apply existsb_app. Qed.
+
+  (** position independence: an accepting problem anywhere in the list suffices (first, middle or last) *)
+  Lemma is_some_position : forall sel pre p post c,
+    exists_cid rmatch (sel p) c = true -> is_some rmatch sel (pre ++ p :: post) c = true.
+  Proof.
+    intros. apply is_some_spec. exists p. split; auto. apply in_or_app. right. left. reflexivity.
+  Qed.
+
+  Lemma node_of_interest_spec : forall cfg cands,
+    node_of_interest rmatch cfg cands = true <->
+    exists p, In p cfg /\ (classify rmatch (p_sources p) cands = true \/ classify rmatch (p_sinks p) cands = true).
+  Proof.
+    intros. unfold node_of_interest, classify. rewrite orb_true_iff, !existsb_exists. split.
+    - intros [[c [Hc H]] | [c [Hc H]]]; apply is_some_spec in H; destruct H as [p [Hp H]]; exists p; split; auto;
+        [left | right]; apply existsb_exists; eauto.
+    - intros [p [Hp [H | H]]]; apply existsb_exists in H; destruct H as [c [Hc H]]; [left | right];
+        exists c; split; auto; apply is_some_spec; eauto.
+  Qed.
+
   Definition plain (sp : spec) : Prop := sp_compiled sp = true /\ c_interface (sp_cid sp) = "".
 
   (** a single candidate that IS the identity: the verdict is the property's verdict *)
